@@ -48,6 +48,32 @@ _COMMENT_RE = re.compile(r"#[^\n]*|/\*.*?\*/", re.S)
 _BLANK_RE = re.compile(r"\n[ \t]*\n")
 
 
+def duplicate_names(text: str):
+    """Names defined twice in one set / let of a valid text: two plain bindings of one name, or a name that is
+    inherited and also the root of a binding (Nix rejects both).  Returns a sorted list; [] when the text is invalid."""
+    tree = cst.parse(text)
+    if cst.errors(tree):
+        return []
+    dups = set()
+    stack = [tree.root]
+    while stack:
+        n = stack.pop()
+        stack.extend(n.children)
+        if n.type not in ("attrset_expression", "rec_attrset_expression", "let_expression"):
+            continue
+        plain, roots, inherited = [], set(), []
+        for b in cst.attr_items(tree, n, recurse=False):
+            if b.form in ("inherit", "inherit_from"):
+                inherited.append(b.path[0])
+            else:
+                roots.add(b.path[0])
+                if len(b.path) == 1 and "interp" not in b.kinds:
+                    plain.append(b.path[0])
+        dups.update(x for x in plain if plain.count(x) > 1)
+        dups.update(x for x in inherited if x in roots or inherited.count(x) > 1)
+    return sorted(dups)
+
+
 class View:
     """What the independent reader sees in a document."""
 
